@@ -1,23 +1,34 @@
 (* sx interface for C13.
-   input : ( mode fuel side1 side2 oracle )
-     mode   : 0 ParallelSpecFinder, 1 EqPathParallelSpecFinder, 2 / 3 the same two with the proposed
-              repair findings/second_search_shortcut.diff applied (the harness looks whether the
-              repository has it),
-              9 the real run stopped before the finder's searches (ParallelInfo refused or failed):
-                nothing to model, the answer is the marker (9)
+   input : ( mode fuel A B oracle woracle )
+     mode   : 0 ParallelSpecFinder, 1 EqPathParallelSpecFinder, 3 EqPathParallelSpecFinder with the proposed
+              repair findings/eqpath_unvalidated_child_paths.diff (the harness looks whether the class
+              overrides _maps_are_matched),
+              9 the real run stopped before ParallelInfo read the rule databases (a searcher without a
+                specification, a rule database that is not RuleDB): nothing to model, the answer is (9)
      fuel   : recursion-depth budget (the harness sends a bound that always suffices)
-     side   : ( root ((label atom_identity) ...) ((label (((child ...) kind) ...)) ...) )
+     A, B   : how each universe is obtained
+              (0 side)      given (the synthetic stream): side = ( root ((label atom_identity) ...)
+                            ((label (((child ...) kind) ...)) ...) )
+              (1 db lis)    built by the model of ParallelInfo._construct_eq_label_rules from the rule
+                            database db = ( start (rep_of_label_0 ...) ((is_empty atom_identity_or_-1) ...)
+                                            ((parent (child ...) kind) ...) )
+                            and the order lis = ((eq_parent (eq_child ...)) ...) in which the real run
+                            iterated the pruned rules up to equivalence
      oracle : ((id1 id2 pid1 pid2 (children1) (children2) 0/1) ...) the answers of _eq_path_matches at its
-              cache misses in the real run, by cache key (modes 1, 3); pid = -1 for the root
-   output: ( status keys1 keys2 asked )
-     status : 0 find() returned None, 1 two label maps, 2 out of fuel, 10+c exception c
-              (1 KeyError, 2 IndexError, 9 the replayed oracle ran out)
-     keys   : ((label (child ...)) ...) = Node.rule_keys() of _create_tree(label map, root), i.e. the
-              part of the label map reachable from the root -- what the specification is built from
-     asked  : ((id1 id2 pid1 pid2 (children1) (children2)) ...) cache misses of _eq_path_matches
-              (information only: the harness does not compare it) *)
+              cache misses during the search of the real run, by cache key (modes 1, 3); pid = -1 for the root
+     woracle: the same for the second walk of the proposed repair (mode 3; fresh cache, final label maps)
+   output: ( status keys1 keys2 asked c1 side1 c2 side2 )
+     status : 0 find() returned None, 1 two label maps, 2 out of fuel, 8 a universe was not built (see c1,
+              c2), 10+c exception c (1 KeyError, 2 IndexError, 9 a question the replayed oracle has no
+              answer to)
+     keys   : ((label (child ...)) ...) = Node.rule_keys() of _create_tree(label map, root)
+     asked  : cache misses of _eq_path_matches (information only: the harness does not compare it)
+     c      : 9 universe given; 0 built, 5 built but lis is not the set of pruned rules the model computes,
+              7 ValueError "Only atoms can be verified.", 10+c exception c (1 KeyError, 3 AssertionError,
+              4 RuntimeError)
+     side   : the universe built (empty when given or not built), in the format of the input *)
 From Coq Require Import ZArith List Bool.
-From CSS Require Import Base.Sx Base.PyList Parallel.Model.
+From CSS Require Import Base.Sx Base.PyList Spec.Extractor Parallel.Model Parallel.InfoModel.
 Import ListNotations.
 Open Scope Z_scope.
 
@@ -26,6 +37,29 @@ Definition dec_side (s : sx) : side :=
   mkSide (sx_nat (sx_nth s 0))
          (map (fun e => (sx_nat (sx_nth e 0), sx_Z (sx_nth e 1))) (sx_list (sx_nth s 1)))
          (map (fun e => (sx_nat (sx_nth e 0), map dec_rule (sx_list (sx_nth e 1)))) (sx_list (sx_nth s 2))).
+Definition enc_side (s : side) : sx :=
+  L [of_nat (s_root s);
+     L (map (fun e => L [of_nat (fst e); I (snd e)]) (s_atoms s));
+     L (map (fun e => L [of_nat (fst e); L (map (fun r => L [of_nats (fst r); I (snd r)]) (snd e))]) (s_rules s))].
+
+Definition dec_rkey (s : sx) : rkey := (sx_nat (sx_nth s 0), sx_nats (sx_nth s 1)).
+Definition dec_db (s : sx) : rdb :=
+  mkDB (sx_nat (sx_nth s 0)) (sx_nats (sx_nth s 1))
+       (map (fun e => (sx_bool (sx_nth e 0),
+                       let a := sx_Z (sx_nth e 1) in if a <? 0 then None else Some a)) (sx_list (sx_nth s 2)))
+       (map (fun e => (dec_rkey e, sx_Z (sx_nth e 2))) (sx_list (sx_nth s 3))).
+
+(* (c, the universe when there is one, its encoding for the output) *)
+Definition universe_arg (a : sx) : Z * option side * sx :=
+  if sx_Z (sx_nth a 0) =? 0 then (9, Some (dec_side (sx_nth a 1)), L [])
+  else
+    let db := dec_db (sx_nth a 1) in
+    let lis := map dec_rkey (sx_list (sx_nth a 2)) in
+    match construct db lis with
+    | COk s => (if lis_agrees db lis then 0 else 5, Some s, enc_side s)
+    | CRefused => (7, None, L [])
+    | CErr c => (10 + Z.of_nat c, None, L [])
+    end.
 
 Definition enc_keys (l : list (nat * clist)) : sx :=
   L (map (fun e => L [of_nat (fst e); of_nats (snd e)]) l).
@@ -42,16 +76,16 @@ Definition dec_answer (s : sx) : qkey * bool :=
 
 Definition size_of (d : smap) : nat := S (length d + fold_right (fun e a => (length (snd e) + a)%nat) O d).
 
-Definition enc_outcome (s1 s2 : side) (o : outcome) (asked : list qkey) : sx :=
+Definition enc_outcome (s1 s2 : side) (o : outcome) (asked : list qkey) : list sx :=
   let q := L (map enc_qkey asked) in
   match o with
-  | Nothing => L [I 0; L []; L []; q]
-  | NoFuel => L [I 2; L []; L []; q]
-  | Failed c => L [I (10 + Z.of_nat c); L []; L []; q]
+  | Nothing => [I 0; L []; L []; q]
+  | NoFuel => [I 2; L []; L []; q]
+  | Failed c => [I (10 + Z.of_nat c); L []; L []; q]
   | Found d1 d2 =>
       match tree_keys d1 (s_root s1) (S (size_of d1)), tree_keys d2 (s_root s2) (S (size_of d2)) with
-      | Some k1, Some k2 => L [I 1; enc_keys k1; enc_keys k2; q]
-      | _, _ => L [I 2; L []; L []; q]
+      | Some k1, Some k2 => [I 1; enc_keys k1; enc_keys k2; q]
+      | _, _ => [I 2; L []; L []; q]
       end
   end.
 
@@ -60,13 +94,18 @@ Definition run_c13 (inp : sx) : sx :=
   if mode =? 9 then L [I 9]
   else
     let fuel := sx_nat (sx_nth inp 1) in
-    let s1 := dec_side (sx_nth inp 2) in
-    let s2 := dec_side (sx_nth inp 3) in
-    let wfuel := (fuel * fuel + fuel)%nat in
-    if mode =? 0 then enc_outcome s1 s2 (find_base s1 s2 fuel) []
-    else if mode =? 2 then enc_outcome s1 s2 (find_base_fixed s1 s2 fuel wfuel) []
-    else
-      let oracle := map dec_answer (sx_list (sx_nth inp 4)) in
-      match (if mode =? 1 then find_eq s1 s2 fuel oracle else find_eq_fixed s1 s2 fuel wfuel oracle) with
-      | EOut o asked => enc_outcome s1 s2 o asked
-      end.
+    let '(c1, u1, e1) := universe_arg (sx_nth inp 2) in
+    let '(c2, u2, e2) := universe_arg (sx_nth inp 3) in
+    let tail := [I c1; e1; I c2; e2] in
+    match u1, u2 with
+    | Some s1, Some s2 =>
+      let wfuel := (fuel * fuel + fuel)%nat in
+      if mode =? 0 then L (enc_outcome s1 s2 (find_base s1 s2 fuel wfuel) [] ++ tail)
+      else
+        let table := map dec_answer (sx_list (sx_nth inp 4)) in
+        let wtable := map dec_answer (sx_list (sx_nth inp 5)) in
+        match find_eq s1 s2 (mode =? 3) fuel wfuel (fun k => cache_get table k) (fun k => cache_get wtable k) with
+        | EOut o asked => L (enc_outcome s1 s2 o asked ++ tail)
+        end
+    | _, _ => L ([I 8; L []; L []; L []] ++ tail)
+    end.
